@@ -47,7 +47,7 @@ import (
 
 func init() {
 	props["C18"] = propDef{check: checkC18, replay: replayC18,
-		rule: "case = one TLC-emitted behaviour of AutoSave.tla (sessions x crash point / failure position / torn write / complete save / skip) replayed on repl.AutoSave in child processes, in one API/extension variant; distinct by (behaviour, variant); non-trivial when a process was killed or a failure was injected inside the save path"}
+		rule: "case = one TLC-emitted behaviour of AutoSave.tla (sessions x crash point / failure position / torn write / complete save / skip) replayed on repl.AutoSave in child processes, in one API/extension variant, followed by the next session (repl API, and the built grol binary where the variant says so); distinct by (behaviour, variant); non-trivial when a process was killed or a failure was injected inside the save path"}
 	workers["c18"] = c18Worker
 }
 
@@ -76,6 +76,7 @@ type c18Act struct {
 type c18Gen struct {
 	H    []c18Act           `json:"h"`
 	Disk map[string]c18File `json:"disk"`
+	Boot map[string]c18File `json:"boot"` // BootDisk: the directory after the start-up of the next process
 	End  string             `json:"end"`
 }
 
@@ -539,6 +540,7 @@ func c18Load(dir string, ext bool) ([]byte, string, error) {
 
 type c18Refs struct {
 	root  string
+	bin   string // the grol binary built from the tree under test ("" = none: next sessions through the repl API only)
 	mu    sync.Mutex
 	file  [2]map[string][]byte // ext -> content key -> bytes of ./.gr after a real complete save
 	loads map[string][]byte    // (ext, file bytes | nofile) -> SaveGlobals of a fresh session that auto-loaded it
@@ -905,10 +907,18 @@ type c18Variant struct {
 	Salt int64  `json:"salt"`
 	Sys  string `json:"sys,omitempty"`   // "all" (check) / "kill" / "eio" (replay): strace-driven file-system-call schedule
 	SysJ int    `json:"sys_j,omitempty"` // replay: which call
+	// Next: how the session after the behaviour is started, in addition to the repl API: "" = not at all,
+	// "c" = the grol binary with -c (auto-load, one command, auto-save), "repl" = the grol binary in
+	// interactive mode with an empty standard input (auto-load, EOF, auto-save)
+	Next string `json:"next,omitempty"`
 }
 
 func (v c18Variant) String() string {
-	return fmt.Sprintf("ext=%v api=%s late=%s salt=%d sys=%s", v.Ext, v.API, v.Late, v.Salt, v.Sys)
+	s := fmt.Sprintf("ext=%v api=%s late=%s salt=%d sys=%s", v.Ext, v.API, v.Late, v.Salt, v.Sys)
+	if v.Next != "" {
+		s += " next=" + v.Next
+	}
+	return s
 }
 
 func c18Plan(g *c18Gen, r *c18Refs, v c18Variant) ([]c18ProcPlan, error) {
@@ -926,7 +936,7 @@ func c18Plan(g *c18Gen, r *c18Refs, v c18Variant) ([]c18ProcPlan, error) {
 		switch a.A {
 		case "init", "restart", "retry":
 			ss = append(ss, sess{kind: a.A, nw: a.New, changed: a.Changed})
-		case "load":
+		case "load", "boot": // the start of the next process: every process of the schedule is started in the directory as it is
 		default:
 			ss[len(ss)-1].acts = append(ss[len(ss)-1].acts, a)
 		}
@@ -1265,6 +1275,8 @@ func c18RunCase(g *c18Gen, v c18Variant, r *c18Refs, dir string, load c18LoadFn)
 	}
 	// the next session
 	final := c18List(dir)
+	lastWhere := res.Where[len(res.Where)-1]
+	// .. through the repl API (AutoLoad only: it reads, it never changes the directory), first
 	restored, _, err := load(dir, v.Ext)
 	if err != nil {
 		res.Infra = err
@@ -1280,10 +1292,28 @@ func c18RunCase(g *c18Gen, v c18Variant, r *c18Refs, dir string, load c18LoadFn)
 		res.Infra = err
 		return
 	}
-	lastWhere := res.Where[len(res.Where)-1]
 	if !bytes.Equal(restored, wantOld) && !bytes.Equal(restored, wantNew) {
 		fail("c18-load-neither:"+lastWhere, "a fresh session auto-loaded %q (schedule %s, %s); the complete previous file restores %q, the complete new file %q",
 			restored, lastWhere, v, wantOld, wantNew)
+	}
+	// .. and started the way a user starts it: the grol binary in the directory of the process that is gone (Boot + AutoLoad
+	// of the spec; the start-up code of the program runs, which no session driven through the repl API does). It comes
+	// second because a tree that saves in every session may rightly replace ./.gr by what this session restored.
+	afterBoot := final
+	if v.Next != "" && r.bin != "" {
+		nx, kind, msg, err := r.nextSession(dir, v.Next, lastOldEx, lastOld, lastNew)
+		res.Children++
+		if err != nil {
+			res.Infra = fmt.Errorf("%v (behaviour %s, %s)", err, jstr(g.H), v)
+			return
+		}
+		if kind != "" {
+			fail("c18-"+kind+":"+lastWhere+"+next-start", "%s (schedule %s, %s)", msg, lastWhere, v)
+		}
+		afterBoot = nx.After
+		if res.Fail == "" && !c18SameDir(final, afterBoot) {
+			res.Disagree = append(res.Disagree, fmt.Sprintf("the start of the next session changed the directory (%s); the model's Boot leaves it as it is", lastWhere))
+		}
 	}
 	if traceOK {
 		// an alias line name=func hname(..){..} also defines hname when it is loaded: that by-product is a
@@ -1298,7 +1328,7 @@ func c18RunCase(g *c18Gen, v c18Variant, r *c18Refs, dir string, load c18LoadFn)
 		if ll == nil {
 			ll = []c18Line{}
 		}
-		res.Trace = append(res.Trace, map[string]any{"e": "load", "lines": ll})
+		res.Trace = append(res.Trace, map[string]any{"e": "boot", "ls": nm.listing(r, afterBoot, lastNewLines)}, map[string]any{"e": "load", "lines": ll})
 	}
 	// model prediction (diagnostic)
 	data, ex, _ := c18Gr(final)
@@ -1310,6 +1340,15 @@ func c18RunCase(g *c18Gen, v c18Variant, r *c18Refs, dir string, load c18LoadFn)
 	late := v.Late != ""
 	if (ex != pred.Ex || (ex && !bytes.Equal(data, predB))) && res.Fail == "" && !late {
 		res.Disagree = append(res.Disagree, fmt.Sprintf("final ./.gr %s, model predicts %s (%s)", c18Show(ex, data), c18Show(pred.Ex, predB), lastWhere))
+	}
+	if pb, ok := g.Boot["gr"]; ok && res.Fail == "" && !late { // BootDisk: the state file after the start-up of the next process
+		var pbB []byte
+		if pb.Ex {
+			pbB = r.file[xi][c18Key(pb.Ls)]
+		}
+		if bd, bex, _ := c18Gr(afterBoot); bex != pb.Ex || (bex && !bytes.Equal(bd, pbB)) {
+			res.Disagree = append(res.Disagree, fmt.Sprintf("./.gr after the start of the next session %s, model predicts %s (%s)", c18Show(bex, bd), c18Show(pb.Ex, pbB), lastWhere))
+		}
 	}
 	if !v.Ext && res.Fail == "" && !late {
 		var got, want []string
@@ -1346,6 +1385,7 @@ type c18SysRes struct {
 	Call string
 	Fail string
 	Sig  string
+	Next string // how the next session was started as the grol binary ("" = it was not)
 }
 
 func c18Strace(dir string, logPath string, inject string, spec string) (died bool, err error) {
@@ -1530,6 +1570,21 @@ func c18RunSys(g *c18Gen, v c18Variant, r *c18Refs, dir string, load c18LoadFn, 
 					res.Fail = fmt.Sprintf("a fresh session auto-loaded %q after %s at file-system call %d (%s); previous restores %q, new restores %q", restored, kind, j, callName(j), wantOld, wantNew)
 				}
 			}
+			if res.Fail == "" && v.Next != "" && r.bin != "" { // the next session as a user starts it
+				mode := v.Next
+				if onlyJ == 0 {
+					mode = c18NextMode(v.Salt + int64(j) + int64(len(kind)))
+				}
+				res.Next = mode
+				_, nk, msg, err := r.nextSession(d, mode, old.Ex, oldB, newB)
+				if err != nil {
+					return nil, err
+				}
+				if nk != "" {
+					res.Sig = "c18-" + nk + ":" + where + "+next-start"
+					res.Fail = fmt.Sprintf("%s (%s at file-system call %d of the save, %s)", msg, kind, j, callName(j))
+				}
+			}
 			out = append(out, res)
 			_ = os.RemoveAll(d)
 		}
@@ -1551,8 +1606,8 @@ func c18Cfg(u c18Universe, n int, maxOld int, sessions int, dev string, emit boo
 		}
 		return "FALSE"
 	}
-	s := fmt.Sprintf("CONSTANTS\n N = %d\n%s MaxOld = %d\n Vals = %s\n MaxSessions = %d\n DirectWrite = %s\n IgnoreWriteError = %s\n RenameEarly = %s\n EmitOn = %s\n",
-		n, c18Universe{Shapes: u.Shapes[:n]}.cfg(), maxOld, vals, sessions, b(dev == "DirectWrite"), b(dev == "IgnoreWriteError"), b(dev == "RenameEarly"), b(emit))
+	s := fmt.Sprintf("CONSTANTS\n N = %d\n%s MaxOld = %d\n Vals = %s\n MaxSessions = %d\n DirectWrite = %s\n IgnoreWriteError = %s\n RenameEarly = %s\n PromoteLeftover = %s\n EmitOn = %s\n",
+		n, c18Universe{Shapes: u.Shapes[:n]}.cfg(), maxOld, vals, sessions, b(dev == "DirectWrite"), b(dev == "IgnoreWriteError"), b(dev == "RenameEarly"), b(dev == "PromoteLeftover"), b(emit))
 	switch mode {
 	case "trace", "trace-strict":
 		return s + " StrictTemp = " + b(mode == "trace-strict") + "\nINIT TraceInit\nNEXT TraceNext\nINVARIANTS Atomic FailedLeavesOld LoadedOldOrNew StateFileWhole\nPOSTCONDITION TraceAccepted\n"
@@ -1560,7 +1615,7 @@ func c18Cfg(u c18Universe, n int, maxOld int, sessions int, dev string, emit boo
 		return s + "INIT Init\nNEXT Next\nVIEW view\nINVARIANTS Atomic\n"
 	}
 	return s + "INIT Init\nNEXT Next\nVIEW view\nINVARIANTS TypeOK Atomic FailedLeavesOld LoadedOldOrNew StateFileWhole\n" +
-		"PROPERTIES RestartOldOrNew LeftoverNeverRead SkipTouchesNothing OnlyRenameCommits\n"
+		"PROPERTIES RestartOldOrNew LeftoverNeverRead SkipTouchesNothing OnlyRenameCommits BootOldOrNew\n"
 }
 
 type c18Case struct {
@@ -1642,22 +1697,53 @@ func checkC18(c *Ctx) {
 	c.Assume("the scratch directory is on a local POSIX file system where rename(2) is atomic")
 
 	// 1. design level: each careless variant of the save path must violate Atomic.
-	devs := []string{"DirectWrite", "IgnoreWriteError", "RenameEarly"}
+	// 0. the program under test as a user gets it: the session after a crash is also started as the built binary.
+	grolBin := filepath.Join(c.Scratch(), "c18bin", "grol")
+	binErr := make(chan error, 1)
+	go func() { binErr <- c18BuildGrol(grolBin) }()
+	// reference files from real uninterrupted saves (step 3) do not depend on the TLC runs either
+	par := c18Par()
+	type refsRes struct {
+		r   *c18Refs
+		err error
+	}
+	refsCh := make(chan refsRes, 1)
+	go func() {
+		r, err := newC18Refs(filepath.Join(c.Scratch(), "c18refs"), par/2)
+		refsCh <- refsRes{r, err}
+	}()
+
+	devs := []string{"DirectWrite", "PromoteLeftover", "IgnoreWriteError", "RenameEarly"}
 	if !c.Thorough() {
-		devs = devs[:1]
+		devs = devs[:2]
 	}
-	for _, dev := range devs {
-		r, err := c.TLC(TLCOpt{Spec: "AutoSave", Cfg: c18Cfg(c18Universe{c18Legacy.Shapes, []int{1}}, 2, 2, 1, dev, false, "deviation"), Workers: 1, AllowError: true})
-		if err != nil {
-			c.Infra(err)
-			return
-		}
-		if r.InvViolated != "Atomic" {
-			c.Infra(fmt.Errorf("deviation %s did not violate Atomic: %q\n%s", dev, r.InvViolated, r.ErrText))
-			return
-		}
+	type tlcRes struct {
+		r   *TLCResult
+		err error
 	}
-	c.Cov("design_counterexamples", "Atomic violated by each of "+strings.Join(devs, ", "))
+	devRes := make([]chan tlcRes, len(devs))
+	for i, dev := range devs {
+		devRes[i] = make(chan tlcRes, 1)
+		go func(i int, dev string) {
+			r, err := c.TLC(TLCOpt{Spec: "AutoSave", Cfg: c18Cfg(c18Universe{c18Legacy.Shapes, []int{1}}, 2, 2, 1, dev, false, "deviation"), Workers: 1, AllowError: true})
+			devRes[i] <- tlcRes{r, err}
+		}(i, dev)
+	}
+	checkDevs := func() bool {
+		for i, dev := range devs {
+			x := <-devRes[i]
+			if x.err != nil {
+				c.Infra(x.err)
+				return false
+			}
+			if x.r.InvViolated != "Atomic" {
+				c.Infra(fmt.Errorf("deviation %s did not violate Atomic: %q\n%s", dev, x.r.InvViolated, x.r.ErrText))
+				return false
+			}
+		}
+		c.Cov("design_counterexamples", "Atomic violated by each of "+strings.Join(devs, ", "))
+		return true
+	}
 
 	// 1b. optional extra (thorough): Apalache proves the inductive invariant of AutoSaveInd.tla for any
 	// number of bindings, and refutes it for the DirectWrite variant. Not part of the verdict.
@@ -1700,19 +1786,32 @@ func checkC18(c *Ctx) {
 		}
 		return false
 	}
-	for _, sp := range spaces {
-		workers := 4
-		if sp.emit {
-			workers = 1 // one worker: the witness history kept for a state, and with it the emitted set, is deterministic
-		}
-		r, err := c.TLC(TLCOpt{Spec: "AutoSave", Cfg: c18Cfg(sp.u, sp.n, sp.maxOld, sp.sessions, "", sp.emit, "mc"), Workers: workers, Coverage: c.Thorough() && !sp.emit})
+	// the TLC runs are independent of each other: started together, consumed in order
+	spaceRes := make([]chan tlcRes, len(spaces))
+	for i, sp := range spaces {
+		spaceRes[i] = make(chan tlcRes, 1)
+		go func(i int, sp space) {
+			workers := 4
+			if sp.emit {
+				workers = 1 // one worker: the witness history kept for a state, and with it the emitted set, is deterministic
+			}
+			r, err := c.TLC(TLCOpt{Spec: "AutoSave", Cfg: c18Cfg(sp.u, sp.n, sp.maxOld, sp.sessions, "", sp.emit, "mc"), Workers: workers, Coverage: c.Thorough() && !sp.emit})
+			spaceRes[i] <- tlcRes{r, err}
+		}(i, sp)
+	}
+	if !checkDevs() {
+		return
+	}
+	for si, sp := range spaces {
+		x := <-spaceRes[si]
+		r, err := x.r, x.err
 		if err != nil {
 			c.Infra(err)
 			return
 		}
 		if r.Coverage != nil {
 			var vac []string
-			for _, a := range []string{"Skip", "Start", "CreateTemp", "CreateFails", "WriteTorn", "WriteBinding", "WriteFails", "WriteDone", "Rename", "RenameFails", "Crash", "Restart", "Retry"} {
+			for _, a := range []string{"Skip", "Start", "CreateTemp", "CreateFails", "WriteTorn", "WriteBinding", "WriteFails", "WriteDone", "Rename", "RenameFails", "Crash", "Boot", "Restart", "Retry"} {
 				if r.Coverage[a] == 0 {
 					vac = append(vac, a)
 				}
@@ -1747,6 +1846,7 @@ func checkC18(c *Ctx) {
 			exhaustive = false
 		}
 		picked, forced := 0, 0
+		nextCount := map[bool]int{}
 		for i := 0; i < len(lines); i++ {
 			inStride := i >= off && (i-off)%stride == 0
 			if !inStride && sp.must == nil {
@@ -1759,7 +1859,7 @@ func checkC18(c *Ctx) {
 			}
 			if g.End == "done" && haveStrace && len(g.H) > 0 && len(g.H[0].New) == len(c18ShapeU.Shapes) && g.H[0].Old.Ex && sysFull == nil {
 				// a complete save of one binding of every shape: each of its writes is killed / failed in turn
-				sysFull = &c18Case{G: g, V: c18Variant{API: "direct", Sys: "all", Salt: c.Seed + int64(i)}, Line: lines[i]}
+				sysFull = &c18Case{G: g, V: c18Variant{API: "direct", Sys: "all", Salt: c.Seed + int64(i), Next: "c"}, Line: lines[i]}
 			}
 			if !inStride {
 				if !sp.must(g) {
@@ -1768,7 +1868,23 @@ func checkC18(c *Ctx) {
 				forced++
 			}
 			salt := c.Seed + int64(i)
-			cases = append(cases, c18Case{G: g, V: c18Variant{API: "direct", Salt: salt}, Line: lines[i]})
+			// the next session is also started as the grol binary: whenever the model predicts leftover temporary files in
+			// the directory (something for a start-up to find) and for a third of the other behaviours in the spaces replayed
+			// completely and in the two-session space (several leftovers); for every second / fourth behaviour elsewhere
+			next := ""
+			every := map[bool]int{true: 1, false: 3}
+			if stride > 1 && sp.sessions == 1 {
+				every = map[bool]int{true: 2, false: 4}
+			}
+			if stride == 1 && len(lines) > 5000 { // thorough: the big single-session space, replayed completely
+				every = map[bool]int{true: 4, false: 12}
+			}
+			lit := c18Litter(g)
+			nextCount[lit]++
+			if (nextCount[lit]+int(c.Seed))%every[lit] == 0 {
+				next = c18NextMode(salt)
+			}
+			cases = append(cases, c18Case{G: g, V: c18Variant{API: "direct", Salt: salt, Next: next}, Line: lines[i]})
 			picked++
 			single := true
 			for _, a := range g.H {
@@ -1781,10 +1897,10 @@ func checkC18(c *Ctx) {
 				extras = append(extras, c18Case{G: g, V: c18Variant{API: "evalstring", Salt: salt}, Line: lines[i]})
 			}
 			if (i+int(c.Seed))%6 == 1 {
-				extras = append(extras, c18Case{G: g, V: c18Variant{API: "direct", Ext: true, Salt: salt}, Line: lines[i]})
+				extras = append(extras, c18Case{G: g, V: c18Variant{API: "direct", Ext: true, Salt: salt, Next: next}, Line: lines[i]})
 			}
 			if g.End == "done" && single && len(g.H) > 0 && !hasRestart(g) && haveStrace {
-				sysPool = append(sysPool, c18Case{G: g, V: c18Variant{API: "direct", Sys: "all", Salt: salt, Ext: (i+int(c.Seed))%5 == 0}, Line: lines[i]})
+				sysPool = append(sysPool, c18Case{G: g, V: c18Variant{API: "direct", Sys: "all", Salt: salt, Ext: (i+int(c.Seed))%5 == 0, Next: "c"}, Line: lines[i]})
 			}
 			if g.End == "done" && (i+int(c.Seed))%c.Pick(2, 1) == 0 {
 				late := "kill"
@@ -1825,12 +1941,17 @@ func checkC18(c *Ctx) {
 	}
 	phase("TLC model checking and generation (since start: deviations, MC, GEN)")
 	// 3. reference files from real uninterrupted saves.
-	par := c18Par()
-	refs, err := newC18Refs(filepath.Join(c.Scratch(), "c18refs"), par)
+	rr := <-refsCh
+	refs, err := rr.r, rr.err
 	if err != nil {
 		c.Infra(err)
 		return
 	}
+	if err := <-binErr; err != nil {
+		c.Infra(err)
+		return
+	}
+	refs.bin = grolBin
 	for _, n := range refs.notes {
 		c.Note("%s", n)
 	}
@@ -1871,6 +1992,7 @@ func checkC18(c *Ctx) {
 	var runs [][]map[string]any
 	var runCase []int
 	unreal, faults, children, disagree := 0, 0, 0, 0
+	nextStarts := map[string]int{}
 	sysCalls := map[string]int{}
 	sysBehaviours, skipped := 0, 0
 	for i, res := range results {
@@ -1888,9 +2010,16 @@ func checkC18(c *Ctx) {
 				c.Case(fmt.Sprintf("%s|%s|%s%d", cs.Line, cs.V, sr.Kind, sr.J), true)
 				sysCalls[sr.Kind+" before "+sr.Call]++
 				children++
+				if sr.Next != "" {
+					nextStarts["grol binary, "+sr.Next]++
+					children++
+				}
 				if sr.Fail != "" {
 					v := cs.V
 					v.Sys, v.SysJ = sr.Kind, sr.J
+					if sr.Next != "" {
+						v.Next = sr.Next
+					}
 					c.Fail(sr.Sig, sr.Fail, map[string]any{"check": "sys", "line": cs.Line, "variant": v})
 				}
 			}
@@ -1903,6 +2032,10 @@ func checkC18(c *Ctx) {
 			where[w]++
 		}
 		variants[fmt.Sprintf("api=%s ext=%v late=%q", cs.V.API, cs.V.Ext, cs.V.Late)]++
+		nextStarts["repl API"]++
+		if cs.V.Next != "" {
+			nextStarts["grol binary, "+cs.V.Next]++
+		}
 		unreal += res.Unrealised
 		if res.Fault {
 			faults++
@@ -1938,6 +2071,7 @@ func checkC18(c *Ctx) {
 	c.Cov("syscall_schedules", sysCalls)
 	c.Cov("syscall_schedule_behaviours", sysBehaviours)
 	c.Cov("variants", variants)
+	c.Cov("next_session_started_as", nextStarts)
 	c.Cov("child_processes", children)
 	c.Cov("model_disagreement", disagree)
 	c.Cov("unrealised_schedules", unreal)
@@ -1967,6 +2101,9 @@ func checkC18(c *Ctx) {
 	}
 	rejected := 0
 	validated := len(runs)
+	// 6. binding self-tests: sabotaged copies of recorded runs, validated while the recorded runs themselves are
+	selfTest := make(chan string, 1)
+	go func(runs [][]map[string]any) { selfTest <- c18SelfTest(c, refs, runs) }(runs)
 	for attempt := 0; attempt < 4 && len(runs) > 0; attempt++ {
 		idx, why, err := c18TV(c, runs, false)
 		if err != nil {
@@ -2010,14 +2147,12 @@ func checkC18(c *Ctx) {
 		}
 	}
 
-	phase("trace validation")
-	// 6. binding self-tests.
-	if msg := c18SelfTest(c, refs, runs); msg != "" {
+	if msg := <-selfTest; msg != "" {
 		c.Infra(fmt.Errorf("vacuous binding: %s", msg))
 		return
 	}
 	c.Cov("sabotage_rejected", true)
-	phase("binding self-tests")
+	phase("trace validation and binding self-tests")
 }
 
 // c18SelfTest: (a) a recorded run with the rename moved before the last write, (b) one with a
@@ -2074,18 +2209,49 @@ func c18SelfTest(c *Ctx, refs *c18Refs, runs [][]map[string]any) string {
 	// (c) binding count off by one
 	d := clone()
 	d[find(d, "save.binding", true)]["n"] = 1
-	names := []string{"rename-before-last-write", "state-file-new-during-write", "binding-count"}
-	bads := [][]map[string]any{a, b, d}
-	for i, name := range names {
-		if !c.Thorough() && int64(i) != ((c.Seed%3)+3)%3 { // quick: one sabotage, chosen by the seed
+	// (e) the start of the next session promoted a leftover temporary file to the state file
+	var e []map[string]any
+	for _, r := range runs {
+		if len(r) < 3 || r[len(r)-2]["e"] != "boot" {
 			continue
 		}
-		idx, _, err := c18TV(c, [][]map[string]any{bads[i]}, false)
-		if err != nil {
-			return err.Error()
+		ls, _ := r[len(r)-2]["ls"].(map[string]any)
+		t1, ok1 := ls["t1"].(c18File)
+		gr, ok2 := ls["gr"].(c18File)
+		if ok1 && ok2 && t1.Ex && gr.Ex && len(t1.Ls) > 0 && jstr(t1.Ls) != jstr(gr.Ls) {
+			bb, _ := json.Marshal(r)
+			_ = json.Unmarshal(bb, &e)
+			bl := e[len(e)-2]["ls"].(map[string]any)
+			bl["gr"], bl["t1"] = bl["t1"], c18File{Ls: []c18Line{}}
+			break
 		}
-		if idx < 0 {
-			return "sabotaged run (" + name + ") was accepted by AutoSave_Trace.tla"
+	}
+	names := []string{"rename-before-last-write", "state-file-new-during-write", "binding-count", "next-start-promotes-leftover"}
+	bads := [][]map[string]any{a, b, d, e}
+	if e == nil {
+		// a tree that never leaves a written temporary file next to a state file (it cleans up, or writes elsewhere): there is
+		// no leftover a start-up could promote, the sabotage has no subject
+		c.Note("self-test next-start-promotes-leftover skipped: no recorded run leaves a written temporary file next to a state file")
+		names, bads = names[:3], bads[:3]
+	}
+	msgs := make([]string, len(names))
+	var wg sync.WaitGroup
+	for i := range names {
+		wg.Add(1)
+		go func(i int) {
+			defer wg.Done()
+			idx, _, err := c18TV(c, [][]map[string]any{bads[i]}, false)
+			if err != nil {
+				msgs[i] = err.Error()
+			} else if idx < 0 {
+				msgs[i] = "sabotaged run (" + names[i] + ") was accepted by AutoSave_Trace.tla"
+			}
+		}(i)
+	}
+	wg.Wait()
+	for _, m := range msgs {
+		if m != "" {
+			return m
 		}
 	}
 	// (d) the comparer
@@ -2173,6 +2339,13 @@ func replayC18(rp map[string]any) (bool, string) {
 	if err != nil {
 		fmt.Fprintln(os.Stderr, "INFRASTRUCTURE:", err)
 		os.Exit(2)
+	}
+	if v.Next != "" {
+		refs.bin = filepath.Join(root, "bin", "grol")
+		if err := c18BuildGrol(refs.bin); err != nil {
+			fmt.Fprintln(os.Stderr, "INFRASTRUCTURE:", err)
+			os.Exit(2)
+		}
 	}
 	if v.Sys != "" {
 		sub, err := c18RunSys(&g, v, refs, filepath.Join(root, "case"), c18Load, v.SysJ, v.Sys)
